@@ -4,6 +4,21 @@ Oracles (both must agree with the real model): REF's seed-growing semantics, and
 precedence-climbing evaluator built from the operator table that generated the grammar.  Plus the
 C02 differential (model vs generated parser).  Termination is decided on logical steps (heart
 budget) and an explicit recursion limit.  DESIGN.md section 3/C03.
+
+Families of cases:
+* layered grammars (Spec): 1-4 precedence layers of the cycle shapes listed in KINDS, all short inputs;
+* long chains (run_long): thousands of operators, growth must be iterative;
+* wide layers (WideSpec, run_wide): ONE precedence level with 2..80 operators, written as alternatives of the layer
+  rule, one rule per operator, operator rules through aliases, grouped, mixed, or a chain of rules (cycles of every
+  length) - components with dozens of rules and cycles; a table of anchor sizes is swept every run, more sizes are
+  drawn per seed; decided by REF, precedence climbing (operators tried in the grammar's order) and model-vs-generated;
+* failing constants (run_wide): a constant that fails to evaluate inside an operator alternative of such a layer;
+  decided by REF under both readings of the scope of that failure (refdiff.compare);
+* semantic actions (run_sem): a semantics class with actions on the layer rules / operator rules / aliases that reject
+  (tatsu.exceptions.FailedSemantics) depending on the value grown so far, optionally replacing the value; decided by
+  REF with the same action at every rule exit: a rejected evaluation of the body is a failed evaluation - of the seed
+  pass: the rule fails; of a later growth pass: the growth ends there and the last accepted seed is the rule's value,
+  the rest of the grammar going on from its end - on the model and on the generated parser.
 """
 from __future__ import annotations
 
@@ -14,8 +29,8 @@ import sys
 from .. import lang as L
 from .. import refdiff as D
 from ..common import h64
-from ..ref import canon, left_sccs
-from ..tsu import StepHeart, gen_parser
+from ..ref import PFail, Ref, RefBudget, canon, crepr, left_sccs
+from ..tsu import StepHeart, build, gen_parser, run_wrapped, wrapped
 
 ID = 'C03'
 LEVEL = 'exploration'
@@ -23,20 +38,43 @@ RULE = ('cases = (layered expression grammar, input): 1-4 precedence layers, eac
         'optional-prefixed / named left recursion or right recursion or e op e, optional unary prefix, parenthesised atoms, '
         'cuts after operators, rule names and order permuted; inputs = ALL strings up to length 5 over the grammar\'s '
         'alphabet plus derivation-guided longer strings, with and without blanks; non-trivial = REF accepted the input and at least one '
-        'seed-growing iteration happened; distinct by (grammar text, input)')
+        'seed-growing iteration happened; distinct by (grammar text, input).  PLUS wide layers: one precedence level with n operators, '
+        'n swept over a fixed table (2, 8, 17, 20, 24, 31, 32, 33, 36, 40, 48, 64, 80) and drawn per seed from 2..64, laid out as '
+        'alternatives of the layer rule / one rule per operator / operator rules through one alias or an alias chain each / '
+        'grouped / mixed / a chain of rules, 1-2 layers, cuts, named operands, parentheses; inputs = operator chains over the first, '
+        'last, middle and random operators, with and without blanks, and malformed neighbours (count shrinking with n).  PLUS the same '
+        'layouts with a constant that fails to evaluate inside one operator alternative.  PLUS the same layouts (n mostly 1-6, sometimes '
+        '30-40; optional tail {op atom} and $ after the expression) parsed with a semantics class whose actions on layer rules, '
+        'operator rules or aliases raise FailedSemantics on a pure predicate of the value (operand count >k / ==k, last operand, '
+        'last operator, length parity, membership in a symbol table made of prefixes of the input, tree depth) and return the value or '
+        'its joined text; non-trivial there = REF saw the head of a growth rejected on a pass after a seed had been accepted')
 ASSUMPTIONS = [
     'REF implements the documented seed-growing semantics (bounded by a step budget)',
     'the precedence-climbing oracle applies to layers whose shape it models (direct/aliased/mutual-alias/named/right/e-op-e, '
     'unary prefix, parentheses); optional-prefixed and two-operator mutual layers are decided by REF alone',
     '"terminates" is restated as: within B(grammar, len) rule invocations (heart budget) and below an explicit recursion limit',
+    'wide layers: the precedence-climbing oracle tries the operators in the order the grammar tries them (ordered choice; operator '
+    'tokens may be prefixes of each other) and gives a cut after an operator the scope of the choice it is written in',
+    'a semantic action that raises FailedSemantics, or a constant that fails to evaluate, fails THAT evaluation of the rule body '
+    '(C06: like a syntax mismatch); for the head of a left recursion "growing the seed until it stops advancing" then reads: a failed '
+    'evaluation on a later pass ends the growth and the last accepted seed stays (the unchanged tree behaves so); the scope of a '
+    'failing constant inside the rule (whole rule / the expression) is left open by the documentation and both readings are accepted',
+    'actions are pure functions of the value they receive, so how often a back-end invokes them does not matter',
 ]
 FLOORS = {
     'quick': {'lr_grown': 4000, 'pc_compared': 4000, 'gen_compared': 1500, 'kind:direct': 15, 'kind:aliased': 15,
               'kind:mutual': 15, 'kind:optprefix': 15, 'kind:named': 15, 'kind:right': 10, 'kind:both': 10,
-              'unary': 15, 'parens': 30, 'with_cut': 15, 'kind:direct_alias': 10, 'kind:aliased2': 10, 'long_chain_parsed': 16, 'kind:override_group': 10, 'kind:optwrap': 10, 'callatom': 15},
-    'thorough': {'lr_grown': 100000, 'pc_compared': 100000, 'gen_compared': 30000},
+              'unary': 15, 'parens': 30, 'with_cut': 15, 'kind:direct_alias': 10, 'kind:aliased2': 10, 'long_chain_parsed': 16, 'kind:override_group': 10, 'kind:optwrap': 10, 'callatom': 15,
+              # wide layers / failing constants / rejecting semantic actions (calibrated on seeds 0,1,2,3,7: about half the minimum seen)
+              'wide_grammars': 32, 'wide_rules_in_cycle:32+': 6, 'wide_rules_in_cycle:8-31': 4, 'wide_rules_in_cycle:<8': 3,
+              'wide_compared': 300, 'wide_pc_compared': 300, 'wide_lr_grown': 250, 'wide_gen_compared': 100,
+              'const_failed_in_leader_body': 40, 'const_failed_in_oprule': 80, 'const_gen_compared': 100,
+              'sem_compared': 1200, 'sem_gen_compared': 600, 'sem_leader_rejected_on_later_pass': 180,
+              'sem_seed_pass_rejected': 50, 'sem_nonleader_rejected': 35, 'sem_transform_join': 100, 'sem_with_tail': 12},
+    'thorough': {'lr_grown': 100000, 'pc_compared': 100000, 'gen_compared': 30000, 'wide_grammars': 400, 'wide_rules_in_cycle:32+': 60,
+                 'wide_pc_compared': 4000, 'const_failed_in_leader_body': 400, 'sem_leader_rejected_on_later_pass': 2500},
 }
-PEAK_COUNTERS = ('max_long_chain_depth', 'max_growth', 'max_ref_depth')
+PEAK_COUNTERS = ('max_long_chain_depth', 'max_growth', 'max_ref_depth', 'max_wide_ops', 'max_wide_cycle_rules')
 N = {'quick': 192, 'thorough': 3200}
 
 KINDS = ['direct', 'aliased', 'mutual', 'optprefix', 'named', 'right', 'both', 'mutual2', 'direct_alias', 'override_group', 'optwrap',
@@ -205,6 +243,8 @@ class PC:
                 if l['cut']:
                     raise  # ordinary PEG behaviour on the right: the cut after the operator commits the option
                 return q, lft
+        if l.get('ops') is not None:
+            return self.wide_layer(i, l, p)
         # left-recursive layer: seed = first non-left-recursive option that matches, then grow
         seed = None
         if l['unary']:
@@ -235,6 +275,38 @@ class PC:
                 v = [v, used, r]
             q = q2
         return q, v
+
+    def wide_layer(self, i, l, p):
+        """a layer with MANY operators, each written as an alternative of the layer rule or in a rule of its own:
+        operand, then as long as some operator (tried in the order the grammar tries them) is followed by an operand,
+        fold to the left.  A cut after the operator commits the CHOICE the alternative is written in: the layer rule's own
+        choice (scope None: that growth pass fails, the value grown so far stays) or the choice of the operator's rule
+        (the other operators of that rule are not tried; the layer rule goes on with its next alternative)"""
+        q, v = self.layer(i + 1, p)
+        while True:
+            used = None
+            dead = set()
+            for op, scope in l['ops']:
+                if scope in dead:
+                    continue
+                try:
+                    q2 = self.tok(q, op)
+                except PCFail:
+                    continue
+                try:
+                    q2, r = self.layer(i + 1, q2)
+                except PCFail:
+                    if l['cut']:
+                        if scope is None:
+                            return q, v
+                        dead.add(scope)
+                    continue
+                used = op
+                break
+            if used is None:
+                return q, v
+            v = {'l': v, 'op': used, 'r': r} if l.get('named') else [v, used, r]
+            q = q2
 
     def atom(self, p):
         if self.s.parens:
@@ -326,7 +398,7 @@ def inputs_for(rng, spec, tier):
     return out
 
 
-def check_grammar(acc, spec, g, rng, tier, origin):
+def check_grammar(acc, spec, g, rng, tier, origin, texts=None, fam=None, gen_every=6, label=''):
     start = g.rules[0].name
     case = D.Case(g, start)
     for l in spec.layers:
@@ -354,7 +426,9 @@ def check_grammar(acc, spec, g, rng, tier, origin):
                 lrec_marked.add(r.name)
     except Exception:  # noqa: BLE001
         acc.note('Rule.is_lrec unobserved')
-    texts = inputs_for(rng, spec, tier)
+    if texts is None:
+        texts = inputs_for(rng, spec, tier)
+    kinds = '+'.join(sorted({l["kind"] for l in spec.layers}))
     gen = None
     reused = None
     runaway = 0
@@ -371,11 +445,19 @@ def check_grammar(acc, spec, g, rng, tier, origin):
             continue
         acc.peak('max_growth', r.lr_growth)
         acc.peak('max_ref_depth', r.max_depth)
+        if fam:
+            acc.count(fam + '_compared')
         if a[0] == 'ok':
             acc.count('accepted')
             if r.lr_growth:
                 acc.count('lr_grown')
                 acc.nontriv(L.grammar_text(g), text)
+                if fam:
+                    acc.count(fam + '_lr_grown')
+        if 'failing-constant' in r.nonw and getattr(spec, 'const', None):
+            # a constant that fails to evaluate sits AFTER the left-recursive call of an operator alternative: it is never
+            # reached by a seed pass of the layer rule, so in the layer rule's own body it has ended a LATER growth pass
+            acc.count('const_failed_in_' + spec.const_where())
         if tag is not None:
             # the recorded finding: the growth head is a rule of a cycle that TatSu does not mark, the marked one being
             # the smallest name of the cycle; a head that IS the smallest name and still unmarked is something else
@@ -386,8 +468,8 @@ def check_grammar(acc, spec, g, rng, tier, origin):
                               f'{L.grammar_text(g)!r} input {text!r} REF={a} TATSU={b}',
                               D.witness(g, start, text, a, b, r, origin=origin))
                 continue
-            sig = f'{tag}/' + '+'.join(sorted({l["kind"] for l in spec.layers}))
-            acc.violation(sig, f'left-recursive parse differs from seed growing ({tag}): {L.grammar_text(g)!r} input {text!r} REF={a} TATSU={b}',
+            sig = f'{tag}/' + kinds
+            acc.violation(sig, f'{label}left-recursive parse differs from seed growing ({tag}): {L.grammar_text(g)!r} input {text!r} REF={a} TATSU={b}',
                           D.witness(g, start, text, a, b, r, origin=origin))
             continue
         # second oracle
@@ -398,6 +480,8 @@ def check_grammar(acc, spec, g, rng, tier, origin):
                 c = None
             if c is not None:
                 acc.count('pc_compared')
+                if fam:
+                    acc.count(fam + '_pc_compared')
                 cc = (c[0], c[1], canon(c[2])) if c[0] == 'ok' else c
                 if cc != b:
                     if cc == a or a != b:
@@ -407,11 +491,11 @@ def check_grammar(acc, spec, g, rng, tier, origin):
                         acc.count('oracle_disagreement')
                         acc.note(f'PC vs REF disagree on {L.grammar_text(g)!r} {text!r}: PC={cc} REF={a}')
                     else:
-                        acc.violation('pc/' + '+'.join(sorted({l["kind"] for l in spec.layers})),
-                                      f'not the left-associative tree over the longest prefix: {L.grammar_text(g)!r} input {text!r} expected {cc} got {b}',
+                        acc.violation('pc/' + kinds,
+                                      f'{label}not the left-associative tree over the longest prefix: {L.grammar_text(g)!r} input {text!r} expected {cc} got {b}',
                                       D.witness(g, start, text, cc, b, r, origin=origin))
         # generated parser (sampled)
-        if idx % 6 == 0:
+        if idx % gen_every == 0:
             if gen is None:
                 try:
                     gen = gen_parser(L.to_model(g, name='T'))[0]
@@ -425,6 +509,8 @@ def check_grammar(acc, spec, g, rng, tier, origin):
             m_out = model_plain(case, g, start, text)
             g_out = gen_plain(gen, g, start, text)
             acc.count('gen_compared')
+            if fam:
+                acc.count(fam + '_gen_compared')
             if 'named-not-single' in r.triggers and m_out[0] == g_out[0]:
                 g_out = m_out   # C02's recorded naming defect of generated code (@:(group)): accept/reject still compared
             # one long-lived parser object across all inputs of this grammar (left-recursion tables must not leak)
@@ -434,13 +520,13 @@ def check_grammar(acc, spec, g, rng, tier, origin):
             if 'named-not-single' in r.triggers and r_out[0] == g_out[0]:
                 r_out = g_out   # same recorded naming defect: the bound "last node" is not a function of the input alone
             if r_out != g_out:
-                acc.violation('gen-reused-object/' + '+'.join(sorted({l["kind"] for l in spec.layers})),
+                acc.violation('gen-reused-object/' + kinds,
                               f'a reused generated parser object differs from a fresh one on a left-recursive grammar '
                               f'{L.grammar_text(g)!r} input {text!r}: FRESH={g_out} REUSED={r_out}',
                               D.witness(g, start, text, g_out, r_out, r, origin=origin))
             if m_out != g_out:
-                acc.violation('gen/' + '+'.join(sorted({l["kind"] for l in spec.layers})),
-                              f'generated parser != model on left-recursive grammar {L.grammar_text(g)!r} input {text!r}: MODEL={m_out} GEN={g_out}',
+                acc.violation('gen/' + kinds,
+                              f'{label}generated parser != model on left-recursive grammar {L.grammar_text(g)!r} input {text!r}: MODEL={m_out} GEN={g_out}',
                               D.witness(g, start, text, m_out, g_out, r, origin=origin))
 
 
@@ -574,10 +660,516 @@ def run_long(desc, acc):
                                                     f'(depth got {tree_depth(got)}, expected {tree_depth(expected)}); grammar {gtext!r}', w)
 
 
+# ------------------------------------------------------------------ wide layers (many operators, many cycles)
+SYMS = list('+-*/%&|^<>@~!=?:')
+OP_POOL = SYMS + [a + b for a in SYMS for b in SYMS]      # 272 operator tokens, many of them prefixes of others
+WIDE_LAYOUTS = ['rules', 'alias', 'alias_each', 'grouped', 'chain', 'direct', 'mixed']
+# (layout, number of operators of the wide layer): swept every run whatever the seed; more sizes are drawn per seed
+WIDE_ANCHORS = [('rules', 2), ('rules', 8), ('rules', 31), ('rules', 32), ('rules', 33), ('rules', 48), ('direct', 40),
+                ('alias', 33), ('alias_each', 24), ('grouped', 80), ('mixed', 36), ('chain', 20), ('rules', 64),
+                ('direct', 64), ('alias_each', 40), ('grouped', 17)]
+WIDE_MAX = 64
+FAILING_CONSTS = ('1/0', '[][0]')     # constants whose evaluation fails in every context (REF knows both)
+
+
+class WideSpec:
+    """operator table of a grammar whose precedence layers have MANY operators of one level, written the ways a language
+    with dozens of binary operators is written:
+
+      direct      e = e '+' t | e '-' t | ... | t ;
+      rules       e = add | sub | ... | t ;   add = e '+' t ;   sub = e '-' t ; ...          (one rule per operator)
+      alias       e = add | sub | ... | t ;   add = x '+' t ;   ... ;   x = e ;              (one alias on every cycle)
+      alias_each  e = add | ... | t ;         add = x1 '+' t ;  x1 = e ; (or x1 = y1 ; y1 = e ;)
+      grouped     e = g1 | g2 | ... | t ;     g1 = e '+' t | e '-' t ;  g2 = e '*' t | ...
+      mixed       e = e '+' t | sub | e '*' t | ... | t ;   sub = e '-' t ;
+      chain       e = c0 | t ;  c0 = c1 | e '+' t ;  c1 = c2 | e '-' t ; ...  (cycles of every length through c0)
+
+    The layer rule's name is the smallest of its cycle, so the rule through which the recursion is entered is the one
+    TatSu marks (the recorded finding about entry through another rule of the cycle stays out of this family).
+    Same interface as Spec (PC reads `ops`: (token, scope) in the order the grammar tries them)."""
+
+    callatom = False
+
+    def __init__(self, rng, layout, n, small_other=True, nlayers=None):
+        self.layout, self.n = layout, n
+        nl = nlayers or rng.choice([1, 1, 2])
+        sizes = [n] + [rng.randrange(1, 6) for _ in range(nl - 1)]
+        layouts = [layout] + [rng.choice(WIDE_LAYOUTS) for _ in range(nl - 1)]
+        pool = rng.sample(OP_POOL, sum(sizes))
+        order = list(range(nl))
+        rng.shuffle(order)          # which precedence level the wide layer is
+        self.layers = []
+        for k in order:
+            ops, pool = pool[:sizes[k]], pool[sizes[k]:]
+            self.layers.append(self._layer(rng, layouts[k], ops))
+        self.nlayers = nl
+        self.parens = rng.random() < 0.5
+        self.eof = rng.random() < 0.5
+        self.tail = False           # start = e {anyop atom} [$] : what follows an early end of the growth is still parsed
+        self.const = None           # (layer, operator index, where, constant text)
+        suf = lambda: rng.choice(['', '', '1', '_r'])  # noqa: E731
+        lead = rng.sample('abcde', nl)
+        self.lname = [lead[i] + str(i) + suf() for i in range(nl)]
+        self.oletter = rng.sample('fghkmpqrw', nl)
+        self.atom = 't' + suf()
+        self.num = 'n' + suf()
+        self.start = 's' + suf()
+        self.order_seed = rng.random()
+
+    @staticmethod
+    def _layer(rng, layout, ops):
+        n = len(ops)
+        if layout == 'direct':
+            place = [None] * n
+        elif layout == 'grouped':
+            place, k = [], 0
+            while len(place) < n:
+                place += [k] * rng.choice([2, 2, 3])
+                k += 1
+            place = place[:n]
+        elif layout == 'mixed':
+            place = [j if rng.random() < 0.5 else None for j in range(n)]
+        else:
+            place = list(range(n))
+        cut = rng.random() < 0.25 and layout != 'chain'
+        trial = list(zip(ops, place))
+        if layout == 'chain':
+            trial.reverse()         # c0 = c1 | e op0 t : the deepest rule's operator is tried first
+        return {'kind': 'wide_' + layout, 'layout': layout, 'decl': list(zip(ops, place)), 'ops': trial, 'op': ops[0],
+                'op2': None, 'cut': cut, 'unary': False, 'named': rng.random() < 0.2,
+                'hops': rng.choice([1, 1, 2])}
+
+    def describe(self):
+        return ' / '.join(f'{l["layout"]} layer with {len(l["ops"])} operators in {len({s for _, s in l["ops"] if s is not None})} '
+                          f'rules of their own' for l in self.layers)
+
+    def all_ops(self):
+        return [o for l in self.layers for o, _ in l['decl']]
+
+    def max_cycle_rules(self):
+        return max(len({s for _, s in l['ops'] if s is not None}) for l in self.layers)
+
+    def const_where(self):
+        i, j, _, _ = self.const
+        return 'leader_body' if self.layers[i]['decl'][j][1] is None else 'oprule'
+
+    def pc_applicable(self):
+        return not self.tail and self.const is None
+
+    def roles(self):
+        """rule name -> 'leader' | 'oprule' | 'alias' for the rules of the left-recursive cycles"""
+        if getattr(self, '_roles', None) is not None:
+            return self._roles
+        out = self._roles = {}
+        for r in self.grammar().rules:
+            if r.name in self.lname:
+                out[r.name] = 'leader'
+            elif r.name[0] in self.oletter:
+                out[r.name] = 'oprule'
+            elif r.name[0] in 'xy':
+                out[r.name] = 'alias'
+        return out
+
+    def grammar(self):
+        C = L.Call
+        rules = []
+        for i, l in enumerate(self.layers):
+            e = self.lname[i]
+            nxt = self.lname[i + 1] if i + 1 < self.nlayers else self.atom
+            o = self.oletter[i]
+
+            def opseq(lhs, j, op, l=l, i=i, nxt=nxt):
+                w = (lambda n, x: L.Named(n, x)) if l['named'] else (lambda n, x: x)
+                items = [w('l', lhs), w('op', L.Tok(op))] + ([L.Cut()] if l['cut'] else []) + [w('r', C(nxt))]
+                if self.const and self.const[:2] == (i, j):
+                    at = {'after_lhs': 1, 'after_op': len(items) - 1, 'end': len(items)}[self.const[2]]
+                    items.insert(at, L.Const(self.const[3]))
+                return L.Seq(tuple(items))
+
+            def lhs_of(k, l=l, i=i, e=e):
+                """what an operator rule calls first: the layer rule, or an alias (chain) of it"""
+                if l['layout'] == 'alias':
+                    return C(f'x{i}')
+                if l['layout'] == 'alias_each':
+                    return C(f'x{i}_{k}')
+                return C(e)
+
+            if l['layout'] == 'chain':
+                n = len(l['decl'])
+                rules.append(L.Rule(e, L.Choice((C(f'{o}0'), C(nxt)))))
+                for j, (op, _) in enumerate(l['decl']):
+                    own = opseq(C(e), j, op)
+                    rules.append(L.Rule(f'{o}{j}', L.Choice((C(f'{o}{j + 1}'), own)) if j + 1 < n else own))
+                continue
+            opts, groups = [], {}
+            for j, (op, k) in enumerate(l['decl']):
+                if k is None:
+                    opts.append(opseq(C(e), j, op))
+                else:
+                    if k not in groups:
+                        groups[k] = []
+                        opts.append(C(f'{o}{k}'))
+                    groups[k].append(opseq(lhs_of(k), j, op))
+            opts.append(C(nxt))
+            rules.append(L.Rule(e, L.Choice(tuple(opts))))
+            for k, alts in groups.items():
+                rules.append(L.Rule(f'{o}{k}', L.Choice(tuple(alts)) if len(alts) > 1 else alts[0]))
+                if l['layout'] == 'alias_each':
+                    if l['hops'] == 2:
+                        rules.append(L.Rule(f'x{i}_{k}', C(f'y{i}_{k}')))
+                        rules.append(L.Rule(f'y{i}_{k}', C(e)))
+                    else:
+                        rules.append(L.Rule(f'x{i}_{k}', C(e)))
+            if l['layout'] == 'alias':
+                rules.append(L.Rule(f'x{i}', C(e)))
+        if self.parens:
+            rules.append(L.Rule(self.atom, L.Choice((L.Seq((L.Tok('('), C(self.lname[0]), L.Tok(')'))), C(self.num)))))
+        else:
+            rules.append(L.Rule(self.atom, C(self.num)))
+        rules.append(L.Rule(self.num, L.Pat(r'\d')))
+        random.Random(self.order_seed).shuffle(rules)
+        body = [C(self.lname[0])]
+        if self.tail:
+            body.append(L.Clo(L.Seq((L.Choice(tuple(L.Tok(o) for o in self.all_ops())), C(self.atom)))))
+        if self.eof:
+            body.append(L.EOF())
+        return L.Grammar([L.Rule(self.start, L.Seq(tuple(body)) if len(body) > 1 else body[0])] + rules)
+
+
+def chain_text(rng, spec, n_operands, ops):
+    s = ''
+    for i in range(n_operands):
+        if spec.parens and rng.random() < 0.12:
+            s += '(' + rng.choice('123') + rng.choice(ops) + rng.choice('123') + ')'
+        else:
+            s += rng.choice('123')
+        if i < n_operands - 1:
+            sp = rng.choice(['', '', ' ', '  '])
+            s += sp + rng.choice(ops) + sp
+    return s
+
+
+def wide_inputs(rng, spec, n_chains=None):
+    """operator chains that use the first, the last, a middle and random operators of every layer, with and without
+    blanks, plus the usual malformed neighbours (trailing operator, two operators in a row, unknown character).
+    The number of inputs shrinks with the number of operators (every growth pass tries them all): a budget by count"""
+    allops = spec.all_ops()
+    big = len(allops) >= 24
+    if n_chains is None:
+        n_chains = max(3, min(14, 200 // len(allops)))
+    picks = []
+    for l in spec.layers:
+        ops = [o for o, _ in l['decl']]
+        picks += [ops[0], ops[-1], ops[len(ops) // 2]]
+    picks += rng.sample(allops, min(1 if big else 4, len(allops)))
+    picks = list(dict.fromkeys(picks))
+    out = ['1']
+    for o in picks:
+        sp = rng.choice(['', ' '])
+        out.append('1' + sp + o + sp + '2')
+    for k in range(n_chains):
+        out.append(chain_text(rng, spec, rng.randrange(3, 6 if big else 8), picks if k % 2 else allops))
+    o1, o2 = rng.choice(allops), rng.choice(allops)
+    bad = ['1' + o1, '1' + o1 + o2 + '2', o1 + '1', '1 $ 2', '1' + o1 + '2' + o2, '1 ' + o1 + ' ' + o2 + ' 2 ' + o1 + ' 3', '']
+    if spec.parens:
+        bad += ['(1' + o1 + '2)' + o2 + '3', '1' + o1 + '(2' + o2 + '3)', '(1' + o1 + '2', '((1)' + o2 + '2)' + o1 + '(3)']
+    out += rng.sample(bad, 3) if big else bad
+    return list(dict.fromkeys(out))
+
+
+def wide_cases(desc):
+    """(layout, operator count) pairs of this shard: two anchors (the whole anchor table is swept by the 8 shards of a quick
+    run) and sizes drawn per (seed, shard)"""
+    j = desc['shard'] - 2 * len(LONG_SHAPES)
+    rng = random.Random(h64('C03', 'wide-plan', desc['seed'], desc['shard']))
+    k = len(WIDE_ANCHORS)
+    cases = [WIDE_ANCHORS[(2 * j) % k], WIDE_ANCHORS[(2 * j + 1) % k]]
+    for _ in range(2 if desc['tier'] == 'quick' else 6):
+        cases.append((rng.choice(WIDE_LAYOUTS), rng.randrange(2, WIDE_MAX + 1)))
+    return cases
+
+
+def run_wide(desc, acc):
+    for i, (layout, n) in enumerate(wide_cases(desc)):
+        rng = random.Random(h64('C03', 'wide', desc['seed'], desc['shard'], i))
+        spec = WideSpec(rng, layout, n)
+        g = spec.grammar()
+        acc.count('wide_grammars')
+        acc.count('wide_layout:' + layout)
+        k = spec.max_cycle_rules()
+        acc.count('wide_rules_in_cycle:' + ('<8' if k < 8 else '8-31' if k < 32 else '32+'))
+        acc.peak('max_wide_ops', n)
+        acc.peak('max_wide_cycle_rules', k)
+        check_grammar(acc, spec, g, rng, desc['tier'], {'shard': desc['shard'], 'wide': i}, texts=wide_inputs(rng, spec),
+                      fam='wide', gen_every=3, label=f'[{spec.describe()}] ')
+        if i == 0:
+            acc.sample({'wide': spec.describe(), 'grammar': L.grammar_text(g)[:600]})
+    # constants that fail to evaluate inside an operator alternative of a (small or wide) layer
+    for i in range(4 if desc['tier'] == 'quick' else 10):
+        rng = random.Random(h64('C03', 'const', desc['seed'], desc['shard'], i))
+        n = rng.choice([1, 2, 3, 4, 6, rng.randrange(2, 40)])
+        spec = WideSpec(rng, rng.choice(['direct', 'direct', 'mixed', 'rules', 'grouped', 'alias']), n)
+        li = rng.randrange(spec.nlayers)
+        spec.const = (li, rng.randrange(len(spec.layers[li]['decl'])), rng.choice(['after_lhs', 'after_op', 'end']),
+                      rng.choice(FAILING_CONSTS))
+        for l in spec.layers:
+            l['kind'] += '+const'
+        g = spec.grammar()
+        acc.count('const_grammars')
+        texts = wide_inputs(rng, spec, n_chains=8)
+        cop = spec.layers[li]['decl'][spec.const[1]][0]
+        others = spec.all_ops()
+        for _ in range(8):     # chains that reach the alternative with the constant after some growth
+            t = chain_text(rng, spec, rng.randrange(2, 5), others)
+            sp = rng.choice(['', ' '])
+            texts.append(t + sp + cop + sp + chain_text(rng, spec, rng.randrange(1, 4), others))
+        check_grammar(acc, spec, g, rng, desc['tier'], {'shard': desc['shard'], 'const': i}, texts=list(dict.fromkeys(texts)),
+                      fam='const', gen_every=3,
+                      label=f'[constant `{spec.const[3]}` in an operator alternative ({spec.const_where()}), {spec.describe()}] ')
+
+
+# ------------------------------------------------------------------ semantic actions on left-recursive rules
+def leaves(v):
+    """the leaf texts of an AST value, left to right (dict values by key: l < op < r)"""
+    out, stack = [], [v]
+    while stack:
+        x = stack.pop()
+        if isinstance(x, dict):
+            stack.extend(x[k] for k in sorted(x, reverse=True) if 'parseinfo' not in k)
+        elif isinstance(x, (list, tuple)):
+            stack.extend(reversed(x))
+        elif x is not None:
+            out.append(str(x))
+    return out
+
+
+def sem_pred(desc):
+    """a pure predicate 'reject this value' on the canonical AST a rule produced; desc is JSON-able"""
+    kind, arg = desc
+
+    def f(v):
+        s = ''.join(leaves(v))
+        if kind == 'operands>':
+            return sum(c.isdigit() for c in s) > arg
+        if kind == 'operands==':
+            return sum(c.isdigit() for c in s) == arg
+        if kind == 'last==':
+            return s[-1:] == arg
+        if kind == 'lastopchar':
+            return len(s) > 1 and s[-2] in arg
+        if kind == 'len%2==':
+            return len(s) % 2 == arg
+        if kind == 'unknown':
+            return s not in arg
+        if kind == 'depth>':
+            return tree_depth(v) > arg
+        raise ValueError(kind)
+    return f
+
+
+def sem_plan(rng, spec, text):
+    """which rules get an action, what it rejects, what it returns"""
+    roles = spec.roles()
+    by = {}
+    for n, r in sorted(roles.items()):
+        by.setdefault(r, []).append(n)
+    x = rng.random()
+    if x < 0.55:
+        targets = [rng.choice(by['leader'])]
+    elif x < 0.7:
+        targets = list(by['leader'])
+    elif x < 0.85 and (by.get('oprule') or by.get('alias')):
+        pool = by.get('oprule', []) + by.get('alias', [])
+        targets = rng.sample(pool, min(len(pool), rng.choice([1, 2, 3])))
+    else:
+        pool = by.get('oprule', []) + by.get('alias', [])
+        targets = [rng.choice(by['leader'])] + (rng.sample(pool, 1) if pool else [])
+    transform = rng.choice(['identity', 'identity', 'join'])
+    kinds = ['operands>', 'operands>', 'operands==', 'last==', 'lastopchar', 'len%2==', 'unknown']
+    if transform == 'identity':
+        kinds.append('depth>')
+    kind = rng.choice(kinds)
+    if kind == 'operands>':
+        arg = rng.choice([1, 2, 2, 3, 4])
+    elif kind == 'operands==':
+        arg = rng.choice([1, 2, 3, 3, 4])
+    elif kind == 'last==':
+        arg = rng.choice('123')
+    elif kind == 'lastopchar':
+        arg = ''.join(sorted({o[-1] for o in rng.sample(spec.all_ops(), max(1, len(spec.all_ops()) // 2))}))
+    elif kind == 'len%2==':
+        arg = rng.choice([0, 1])
+    elif kind == 'depth>':
+        arg = rng.choice([0, 1, 2])
+    else:
+        # a symbol table: the blank-free prefixes of the input that end with an operand, some of them unknown
+        flat = ''.join(text.split())
+        ends = [k + 1 for k, c in enumerate(flat) if c.isdigit()]
+        known = [flat[:k] for n, k in enumerate(ends) if rng.random() < (0.9 if n < 2 else 0.5)]
+        arg = sorted(set(known + ['1', '2', '3'] if rng.random() < 0.8 else known))
+    return {'targets': sorted(targets), 'pred': [kind, arg], 'transform': transform}
+
+
+def make_semantics(plan, seen):
+    """a semantics CLASS with one method per target rule, the way a user writes a name resolver or a type checker"""
+    from tatsu.exceptions import FailedSemantics
+    pred = sem_pred(plan['pred'])
+    join = plan['transform'] == 'join'
+
+    def action(self, ast, *args, **kwargs):
+        v = canon(ast)
+        seen['calls'] = seen.get('calls', 0) + 1
+        if pred(v):
+            seen['rejected'] = seen.get('rejected', 0) + 1
+            raise FailedSemantics(f'rejected by the semantics: {plan["pred"][0]}')
+        return ''.join(leaves(v)) if join else ast
+    return type('Checker', (), {t: action for t in plan['targets']})()
+
+
+def ref_sem(g, text, start, plan, max_steps=30000):
+    """REF with the same action applied at every successful rule-body evaluation: a rejection is a failure of THAT
+    evaluation of the body - of a seed pass: the rule fails; of a later growth pass: the growth ends, the seed stays"""
+    pred = sem_pred(plan['pred'])
+    join = plan['transform'] == 'join'
+    targets = set(plan['targets'])
+    info = {'late': 0, 'seedpass': 0, 'nonhead': 0}
+
+    def action(rule, val, pos, end):
+        if rule.name not in targets:
+            return val
+        v = canon(val)
+        if pred(v):
+            seed = ref.growing.get((rule.name, pos))
+            if seed is not None and seed['res'] is not None:
+                info['late'] += 1           # the rule is the head of a growth and already holds an accepted seed
+            elif seed is not None and seed['used']:
+                info['seedpass'] += 1
+            else:
+                info['nonhead'] += 1
+            raise PFail(end, 'semantics')
+        return ''.join(leaves(v)) if join else val
+    ref = Ref(g, text, max_steps=max_steps, action=action)
+    try:
+        end, val = ref.parse(start)
+        a = ('ok', end, canon(val))
+    except PFail:
+        a = ('fail',)
+    except (RefBudget, RecursionError):
+        a = ('budget',)
+    return a, ref, info
+
+
+SEM_LAYOUTS = ['direct', 'direct', 'rules', 'rules', 'alias', 'alias_each', 'grouped', 'mixed', 'chain']
+
+
+def sem_spec(rng):
+    n = rng.choice([1, 2, 2, 3, 4, 6]) if rng.random() < 0.9 else rng.randrange(30, 41)
+    spec = WideSpec(rng, rng.choice(SEM_LAYOUTS), n)
+    x = rng.random()
+    spec.tail = x < 0.5                  # the rest of the grammar goes on from where the growth ended
+    spec.eof = rng.random() < (0.7 if spec.tail else 0.3)
+    for l in spec.layers:
+        l['cut'] = False
+    return spec
+
+
+def sem_backends(g, start):
+    model = build(wrapped(g, start))
+    return model, gen_parser(model)[0]
+
+
+def sem_one(acc, spec, g, start, text, plan, backends, lrec_marked, sccs, origin):
+    a, r, info = ref_sem(g, text, start, plan)
+    if a[0] == 'budget':
+        acc.count('ref_budget')
+        return
+    if info['late']:
+        acc.count('sem_leader_rejected_on_later_pass')
+    if info['seedpass']:
+        acc.count('sem_seed_pass_rejected')
+    if info['nonhead']:
+        acc.count('sem_nonleader_rejected')
+    if plan['transform'] == 'join':
+        acc.count('sem_transform_join')
+    kinds = '+'.join(sorted({l['kind'] for l in spec.layers}))
+    outs = {}
+    for bk, obj in backends.items():
+        seen = {}
+        sem = make_semantics(plan, seen)
+        parser = obj() if isinstance(obj, type) else obj
+        b = run_wrapped(parser, text, budget=D.step_budget(g, text), semantics=sem)
+        outs[bk] = b
+        acc.evaluations += 1
+        acc.count('sem_compared')
+        if seen.get('rejected'):
+            acc.count('sem_rejections_observed')
+        if a[0] == 'ok' and info['late']:
+            acc.nontriv(L.grammar_text(g), text, crepr(plan), bk)
+        tag = D.relation(a, b, bool(r.nonw))
+        if tag is None:
+            continue
+        w = D.witness(g, start, text, a, b, r, origin=origin, mode='sem', plan=plan, backend=bk)
+        nonleader = sorted(h for h in r.lr_heads if h not in lrec_marked and h != min(sccs.get(h, {h})))
+        if nonleader and tag in ('accept', 'len', 'ast', 'reject'):
+            acc.violation(f'{tag}/trigger:lr-entered-through-non-leader',
+                          f'indirect left recursion entered through a rule that is not the marked leader ({nonleader}), with '
+                          f'semantic actions: {L.grammar_text(g)!r} input {text!r} REF={a} TATSU={b}', w)
+            continue
+        when = ('on a growth pass after a seed had been accepted' if info['late'] else
+                'on a seed pass' if info['seedpass'] else 'in a rule that is not growing' if info['nonhead'] else 'never')
+        acc.violation(f'sem-{tag}/{kinds}',
+                      f'{bk}: left-recursive rule under rejecting semantic actions differs from seed growing ({tag}): a rejected '
+                      f'evaluation of the rule body ends the growth and keeps the last accepted seed, the parse goes on from there; '
+                      f'actions on {plan["targets"]} reject {plan["pred"][0]} {plan["pred"][1]!r}, returning {plan["transform"]} '
+                      f'(REF saw a rejection {when}); [{spec.describe()}] {L.grammar_text(g)!r} input {text!r} REF={a} TATSU={b}', w)
+    if len(outs) == 2:
+        acc.count('sem_gen_compared')
+        m, c = outs['model'], outs['generated']
+        if m != c:
+            acc.violation(f'sem-gen/{kinds}',
+                          f'generated parser != model on a left-recursive grammar with rejecting semantic actions on '
+                          f'{plan["targets"]} ({plan["pred"]}): {L.grammar_text(g)!r} input {text!r} MODEL={m} GEN={c}',
+                          D.witness(g, start, text, m, c, r, origin=origin, mode='sem', plan=plan, backend='generated'))
+
+
+def run_sem(desc, acc):
+    for i in range(8 if desc['tier'] == 'quick' else 20):
+        rng = random.Random(h64('C03', 'sem', desc['seed'], desc['shard'], i))
+        spec = sem_spec(rng)
+        g = spec.grammar()
+        start = g.rules[0].name
+        acc.count('sem_grammars')
+        acc.count('sem_layout:' + spec.layout)
+        if spec.tail:
+            acc.count('sem_with_tail')
+        try:
+            model, gen = sem_backends(g, start)
+        except Exception as e:  # noqa: BLE001
+            acc.evaluations += 1
+            acc.violation('exc:build:' + type(e).__name__, f'model construction / code generation failed: {e!r:.200} for '
+                          f'{L.grammar_text(g)!r}', {'grammar': L.to_json(g), 'grammar_text': L.grammar_text(g), 'text': ''})
+            continue
+        lrec_marked = {r.name for r in model.rules if getattr(r, 'is_lrec', False)}
+        sccs = left_sccs(g)
+        ops = spec.all_ops()
+        for k in range(12):
+            text = chain_text(rng, spec, rng.randrange(2, 8), ops)
+            if rng.random() < 0.1:
+                text += rng.choice(ops)
+            plan = sem_plan(rng, spec, text)
+            sem_one(acc, spec, g, start, text, plan, {'model': model, 'generated': gen}, lrec_marked, sccs,
+                    {'shard': desc['shard'], 'sem': i, 'k': k})
+        if i == 0:
+            acc.sample({'sem': spec.describe(), 'grammar': L.grammar_text(g)[:400], 'plan': plan, 'text': text})
+
+
 def run_shard(desc, acc):
     sys.setrecursionlimit(3000)
     if desc['shard'] < 2 * len(LONG_SHAPES):
         run_long(desc, acc)
+    else:
+        run_wide(desc, acc)
+        run_sem(desc, acc)
     for i in range(desc['n']):
         rng = random.Random(h64('C03', desc['seed'], desc['shard'], i))
         spec = Spec(rng)
@@ -593,6 +1185,17 @@ def replay(w, acc):
         sys.setrecursionlimit(3000)
         return run_long({'tier': w['tier'], 'seed': w['seed'], 'shard': w['shard']}, acc)
     g = L.from_json(w['grammar'])
+    if w.get('mode') == 'sem':
+        sys.setrecursionlimit(3000)
+        a, r, info = ref_sem(g, w['text'], w['start'], w['plan'])
+        model, gen = sem_backends(g, w['start'])
+        parser = model if w.get('backend') == 'model' else gen()
+        b = run_wrapped(parser, w['text'], budget=D.step_budget(g, w['text']), semantics=make_semantics(w['plan'], {}))
+        acc.evaluations += 1
+        tag = D.relation(a, b, bool(r.nonw)) if a[0] != 'budget' else None
+        if tag:
+            acc.violation(f'sem-{tag}/replay', f'left-recursive parse with rejecting semantic actions differs ({tag}): REF={a} TATSU={b}', w)
+        return
     case = D.Case(g, w['start'])
     tag, a, b, r = D.compare(case, w['text'])
     acc.evaluations += 1
@@ -601,10 +1204,13 @@ def replay(w, acc):
 
 
 MANIFEST = {
-    'technique': 'runtime monitoring: two independent online oracles (seed-growing reference model, precedence climbing) + model/generated differential, step-budget termination monitor',
+    'technique': 'runtime monitoring: two independent online oracles (seed-growing reference model, precedence climbing) + model/generated differential, step-budget termination monitor; '
+                 'reference model with the same rejecting semantic action for left-recursive rules under semantics',
     'level_text': 'structured generation of layered left-recursive expression grammars x all short operator/operand strings; each real parse is '
                   'compared with REF (seed growing) and with a precedence-climbing evaluator (left-associative tree over the longest prefix); '
-                  'termination decided on logical steps and recursion depth, not wall clock',
+                  'termination decided on logical steps and recursion depth, not wall clock; wide single-level layers (2..80 operators, one rule per '
+                  'operator and other multi-rule layouts) under the same oracles; left-recursive rules whose semantic actions or constants reject a '
+                  'grown value are compared with REF carrying the same action (growth ends at the last accepted seed)',
     'level_note': 'trusted: vt/ref.py seed-growing model, the PC evaluator, the heart-based step budget; exotic cycle shapes outside the layered '
                   'family are covered for termination by C16, not for value',
 }
